@@ -39,8 +39,13 @@ BODIES = {
     "illtyped": "def f(x: int, xs: array[int, 2]) -> int:\n    return float(x)\n",
     "leak": "def f(x: int, xs: array[int, 2]) -> int:\n    q = qubit()\n    return int(x)\n",
     "nested": "def f(x: int, xs: array[int, 2]) -> int:\n    return helper(int(x)) + len(xs)\n",
+    # a regular Guppy function with a capture-free recursive nested function, checked for the first
+    # time while the comptime function is traced
+    "calls_regular_with_nested_def": "def f(x: int, xs: array[int, 2]) -> int:\n    return regrec(int(x)) + len(xs)\n",
 }
-HELPER = "@guppy.comptime\ndef helper(a: int) -> int:\n    return int(a) + len([1, 2, 3])\n\n"
+HELPER = ("@guppy.comptime\ndef helper(a: int) -> int:\n    return int(a) + len([1, 2, 3])\n\n"
+          "@guppy\ndef regrec(k: int) -> int:\n    def fibo(m: int) -> int:\n        if m < 2:\n            return m\n"
+          "        return fibo(m - 1) + fibo(m - 2)\n    return fibo(k)\n\n")
 
 
 def plan(tier, seed):
